@@ -14,9 +14,22 @@ import (
 	"testing"
 
 	vh "git.torproject.org/pluggable-transports/snowflake.git/v2/common/zzverif"
+	"github.com/pion/sdp/v3"
 )
 
 const c13SdpHead = "v=0\r\no=- 4358805017720277108 2 IN IP4 8.8.8.8\r\ns=-\r\nt=0 0\r\n"
+
+// the same head with a session-level c= line where RFC 4566 puts it (before t=); pion rejects it elsewhere
+const c13SdpHeadC = "v=0\r\no=- 4358805017720277108 2 IN IP4 8.8.8.8\r\ns=-\r\n%s\r\nt=0 0\r\n"
+
+// c13Conn: connection lines — complete, multicast forms, truncated after every field, odd spacing
+func c13Conn(rng *rand.Rand) string {
+	return []string{
+		"c=IN IP4 1.2.3.4", "c=IN IP4 8.8.8.8/127", "c=IN IP4 224.2.1.1/127/3", "c=IN IP4 0.0.0.0", "c=IN IP4 x", "c=IN IP4 ", "c=IN IP4", "c=IN IP4  ",
+		"c=IN IP6 2001:db8::2", "c=IN IP6 ::", "c=IN IP6 fe80::1", "c=IN IP6 zz", "c=IN IP6 ff15::101/3", "c=IN IP6 ", "c=IN IP6",
+		"c=IN", "c=IN ", "c=", "c= ", "c=IN IP4 1.2.3.4 5.6.7.8", "c=IN  IP4 1.2.3.4", "c=IN\tIP4\t8.8.4.4", "c=IN IP4 /", "c=IN IP4 /1", "c=IN IP5 1.2.3.4", "c=in ip4 1.2.3.4",
+	}[rng.Intn(26)]
+}
 
 func c13Cand(rng *rand.Rand) string {
 	good := []string{
@@ -56,7 +69,7 @@ func TestVerifC13Proxy(t *testing.T) {
 	r := vh.Start("C13")
 	defer r.Finish()
 	rng := r.Rng
-	try := func(class, sdp string) {
+	try := func(class, sdpText string) {
 		out := "ok"
 		func() {
 			defer func() {
@@ -64,17 +77,23 @@ func TestVerifC13Proxy(t *testing.T) {
 					out = fmt.Sprintf("panic:%v", x)
 				}
 			}()
-			ip := remoteIPFromSDP(sdp)
+			ip := remoteIPFromSDP(sdpText)
 			if ip != nil {
 				out = "ip"
 			} else {
 				out = "nil"
 			}
 		}()
-		r.Case("remoteip/"+class+"/"+strings.SplitN(out, ":", 2)[0], vh.Hex([]byte(sdp)), true)
+		// which inputs get past pion's SDP parser (only those reach the candidate and connection-line logic)
+		var d sdp.SessionDescription
+		parsed := "pion-rejects"
+		if d.Unmarshal([]byte(sdpText)) == nil {
+			parsed = "pion-parses"
+		}
+		r.Case("remoteip/"+class+"/"+parsed+"/"+strings.SplitN(out, ":", 2)[0], vh.Hex([]byte(sdpText)), true)
 		if strings.HasPrefix(out, "panic") {
-			r.OracleFail("remote-ip-from-sdp-panics", vh.Hex([]byte(sdp)), out,
-				"extracting a peer address from any SDP text must return a value or nothing, never panic: "+fmt.Sprintf("%q", sdp))
+			r.OracleFail("remote-ip-from-sdp-panics", vh.Hex([]byte(sdpText)), out,
+				"extracting a peer address from any SDP text must return a value or nothing, never panic: "+fmt.Sprintf("%q", sdpText))
 		}
 	}
 	for i := 0; i < r.N(1500, 30000); i++ {
@@ -83,16 +102,18 @@ func TestVerifC13Proxy(t *testing.T) {
 			nl = "\n"
 		}
 		var b strings.Builder
-		b.WriteString(strings.ReplaceAll(c13SdpHead, "\r\n", nl))
-		if rng.Intn(3) == 0 {
-			b.WriteString("c=IN IP4 " + []string{"1.2.3.4", "8.8.8.8/127", "0.0.0.0", "x", ""}[rng.Intn(5)] + nl)
+		if rng.Intn(2) == 0 {
+			b.WriteString(strings.ReplaceAll(fmt.Sprintf(c13SdpHeadC, c13Conn(rng)), "\r\n", nl))
+		} else {
+			b.WriteString(strings.ReplaceAll(c13SdpHead, "\r\n", nl))
 		}
+		noCands := rng.Intn(3) == 0 // descriptions without candidates reach the connection-line fallback
 		for m, nm := 0, rng.Intn(3); m < nm; m++ {
 			b.WriteString("m=application 9 UDP/DTLS/SCTP webrtc-datachannel" + nl)
 			if rng.Intn(2) == 0 {
-				b.WriteString("c=IN IP6 " + []string{"2001:db8::2", "::", "fe80::1", "zz"}[rng.Intn(4)] + nl)
+				b.WriteString(c13Conn(rng) + nl)
 			}
-			for c, nc := 0, rng.Intn(5); c < nc; c++ {
+			for c, nc := 0, rng.Intn(5); c < nc && !noCands; c++ {
 				b.WriteString("a=" + c13Cand(rng) + nl)
 			}
 			if rng.Intn(4) == 0 {
